@@ -532,7 +532,7 @@ def run_C01(ctx):
 def run_C08(ctx):
     ctx.cov["rule"] = ("M+G (bytes): Renderer || Scanner -- two directive lines from 11 line templates, each rendered under every combination of indentation, separators, trailing blanks / comment, LF / CRLF / CR, "
                        "blank / '#' / '###' material before the line, // vs /* */, quoted parameters (one line varies, the other canonical: about 70 000 quick / 210 000 thorough renderings); invariant: same tokens as the canonical "
-                       "layout; every rendering replayed on the real Next(). M+G (documents): explicit-closure form vs implicit form of every block-model document (same tree, same catalog bytes). "
+                       "layout; every rendering replayed on the real Next(). M+G (Description): Desc.tla transcribes core/description.go; every text of <= 3 lines x <= 2 (quick) / 3 (thorough) bytes over {space, tab, a, b}: the normalised text is invariant under LF/CRLF/CR, uniform indentation and the '( )' frame (M) and equals the real catalog's description in 7 layout variants (G). M+G (documents): explicit-closure form vs implicit form of every block-model document (same tree, same catalog bytes). "
                        "G: every block-model document (accepted or rejected) in 6 seeded random layouts -- same skeleton and same catalog BYTES as the canonical layout, or same class with the error on the moved line. "
                        "V: every single-file corpus document rewritten with CRLF, with CR and with a uniform indentation: same verdict, same catalog (line breaks inside string values normalised), same error class and line. "
                        "Non-trivial = renderings with at least two lexemes / documents with an explicit context / accepted corpus files.")
@@ -548,6 +548,11 @@ def run_C08(ctx):
     ctx.absorb(res2, "G:c08-closure")
     st2 = ctx.vh("c08-closure", r2.out, "selftest")
     ctx.selftest(st2["n_mismatch"] >= 0.5 * st2["cases"], "C08 G: a damaged explicit form is noticed")
+    rd = ctx.tlc("MC_Desc", cfg="MC_Desc_quick.cfg" if ctx.quick else "MC_Desc_thorough.cfg", timeout=3000)
+    resd = ctx.vh("desc-replay", rd.out, timeout=3000)
+    ctx.absorb(resd, "G:desc-replay")
+    std = ctx.vh("desc-replay", rd.out, "selftest")
+    ctx.selftest(std["n_mismatch"] == std["cases"], "C08 G: a wrong description text is noticed")
     r3 = ctx.tlc("MC_C02", cfg="MC_C02_quick.cfg" if ctx.quick else "MC_C02_thorough.cfg", timeout=3300)
     res3 = ctx.vh("doc-replay", r3.out, env={"VH_LAYOUTS": "6", "VERIF_SEED": str(ctx.seed), "VH_IGNORE": "uenums"}, timeout=3300)
     ctx.absorb(_only(res3, ["layout:"]), "G:doc-replay(6 layouts)")
